@@ -76,7 +76,8 @@ def gen_budget(rng, profile='migrate', year=2025):
         lay_d = dict(base_lay, sign=rng.choice(['', '+']), cols=['date', 'description', 'amount', 'skip'])
         lay_c = dict(base_lay, sign='-', cols=['date', 'description', 'skip', 'amount'])
         for r in rows:
-            r['style'] = 'plain'
+            if r['style'] != 'plain3':
+                r['style'] = 'plain'
             (deb if rng.random() < 0.5 else cre).append(r)
         for nm, lay_, rws in (('Debits', lay_d, deb), ('Credits', lay_c, cre)):
             b['sources'].append({'name': nm, 'file': 'data/both.csv', 'layout': lay_, 'rows': rws, 'supplemental': False,
@@ -228,7 +229,7 @@ def render_budget(b, rng):
         allrows = sorted(((r, s['shared']) for s in shared for r in s['rows']), key=lambda x: x[0]['id'])
         lines = ['Date,Description,Debit,Credit']
         for r, col in allrows:
-            cell = st.render_amount(r['value'], 'plain', '.')
+            cell = st.render_amount(r['value'], r['style'], '.')
             d = st.date_cell(shared[0]['layout'], r)
             desc = st._quote(r['desc'], None)
             lines.append('%s,%s,%s,' % (d, desc, cell) if col == 'debit' else '%s,%s,,%s' % (d, desc, cell))
